@@ -1083,7 +1083,7 @@ impl<'a, 'b> GeneratorState<'a> {
         let ifend_label = format!(".ifend{}", self.local_label_counter_if);
         match else_body {
             None => match body.statement {
-                Statement::Break => {
+                Statement::Break if body.label.is_none() => {
                     let brk_label = {
                         match self.loops.last() {
                             None => {
@@ -1096,7 +1096,7 @@ impl<'a, 'b> GeneratorState<'a> {
                     };
                     self.generate_condition(condition, pos, false, &brk_label, false)?;
                 }
-                Statement::Continue => {
+                Statement::Continue if body.label.is_none() => {
                     let cont_label = {
                         match self.loops.last() {
                             None => {
